@@ -74,6 +74,35 @@ def run_calls(cfg, ids=None, role="single"):
         return {"cfg": c, "role": role, "status": status, "exc": exc, "tracer": tr, "sampler": _S(),
                 "result": result, "urng": urng, "flow": flow, "prob": prob, "ids": ids,
                 "orng_created": 0, "resumed": False}
+    if c.get("via") == "aspire":
+        # the same sampler through the top-level call: Aspire(...).sample_posterior(sampler=..., rng=...)
+        from aspire import Aspire
+        status, exc, result, a = "ok", "", None, None
+        try:
+            a = Aspire(log_likelihood=tr.log_likelihood, log_prior=tr.log_prior, dims=c["dims"],
+                       parameters=[f"x_{i}" for i in range(c["dims"])], flow=flow, xp=xp, dtype=c["dtype"])
+            kw = dict(n_samples=c["N"], sampler=c["sampler"],
+                      preconditioning=None if c["precond"] == "default" else "none")
+            if c["sampler"] in ("minipcn", "emcee"):
+                kw["rng"] = urng
+            if c["sampler"] == "minipcn":
+                kw["n_steps"] = c["mcmc_steps"]
+            elif c["sampler"] == "emcee":
+                kw["nsteps"] = c["mcmc_steps"]
+            result = a.sample_posterior(**kw)
+        except InjectedFault as ex:
+            status, exc = "fault", str(ex)
+        except Exception as ex:
+            status, exc = "raised", f"{type(ex).__name__}: {ex}"
+        finally:
+            minipcn_stub.OBSERVER = None; emcee_stub.OBSERVER = None; verifflow_mod.OBSERVER = None
+        smp = getattr(a, "_sampler", None)
+        if smp is None:
+            class smp:      # noqa
+                n_likelihood_evaluations = -1
+        return {"cfg": c, "role": role, "status": status, "exc": exc, "tracer": tr, "sampler": smp,
+                "result": result, "urng": urng, "flow": flow, "prob": prob, "ids": ids,
+                "orng_created": len(orng_stub.CREATED), "resumed": False}
     Cls = sampler_class(c["sampler"])
     sc = dict(smcdrv.DEFAULT); sc.update({k: c[k] for k in ("dims", "dtype", "precond")})
     sampler = Cls(log_likelihood=tr.log_likelihood, log_prior=tr.log_prior, dims=c["dims"],
